@@ -469,7 +469,9 @@ pub fn gen_large(rng: &mut Rng, n: usize, max_support: usize, cyclic: usize, dep
                         atoms.push(a);
                     }
                 }
-                let mut f = F::random(rng, &atoms, depth);
+                // now and then a really big condition (hundreds of connectives, still few distinct statements)
+                let d = if rng.chance(1, 6) { depth + rng.range(3, 5) } else { depth };
+                let mut f = F::random(rng, &atoms, d);
                 // make sure the direct predecessor matters often (long chains)
                 if rng.chance(2, 3) && f.atom_list().len() < max_support {
                     let prev = F::Atom(order[k - 1]);
